@@ -1026,3 +1026,299 @@ Theorem tracker_survives d later uuid :
   has_trk d uuid = true ->
   has_trk (execs d later) uuid = true \/ exists s, In s later /\ deletes uuid s = true.
 Proof. exact (proj2 (rows_only_deleted_explicitly later d uuid)). Qed.
+
+(* ------------------------------------------------------------------------------------------ *)
+(* 14. balances along crash prefixes *)
+
+Definition davail (d : db) (u : N) : N := match aget (d_users d) u with Some ui => u_slots ui | None => 0 end.
+Definition dheld (d : db) (u : N) : N := ssum (filter (ofu u) (d_apps d)).
+
+Lemma balance_alt d u : balance d u = davail d u + dheld d u.
+Proof.
+  unfold balance, davail, dheld. f_equal. induction (d_apps d) as [|a l IH]; [reflexivity|].
+  cbn [fold_right filter]. unfold ofu at 1. destruct (N.eqb (a_user a) u); [rewrite ssum_cons|]; rewrite IH; unfold aslots; lia.
+Qed.
+
+Lemma balance_bal t u : balance (db_of t) u = bal t u.
+Proof. rewrite balance_alt. reflexivity. Qed.
+
+Lemma balance_ua d d' u : d_users d' = d_users d -> d_apps d' = d_apps d -> balance d' u = balance d u.
+Proof. intros H1 H2. unfold balance. rewrite H1, H2. reflexivity. Qed.
+
+Definition le_all (d d' : db) : Prop := forall u, balance d' u <= balance d u.
+
+Lemma le_all_refl d : le_all d d.
+Proof. intros u. lia. Qed.
+Lemma le_all_trans a b c : le_all a b -> le_all b c -> le_all a c.
+Proof. intros H1 H2 u. specialize (H1 u). specialize (H2 u). lia. Qed.
+
+(* a property of every crash prefix of a statement list started in d *)
+Definition all_prefixes (Q : db -> Prop) (d : db) (l : list stmt) : Prop := forall n, Q (execs d (firstn n l)).
+
+Lemma ap_nil (Q : db -> Prop) d : Q d -> all_prefixes Q d [].
+Proof. intros H n. destruct n; exact H. Qed.
+
+Lemma ap_cons (Q : db -> Prop) d s l : Q d -> all_prefixes Q (exec d s) l -> all_prefixes Q d (s :: l).
+Proof. intros H0 H n. destruct n as [|n]; [exact H0|]. cbn [firstn]. rewrite execs_cons. apply H. Qed.
+
+Lemma ap_app (Q : db -> Prop) d l1 l2 : all_prefixes Q d l1 -> all_prefixes Q (execs d l1) l2 -> all_prefixes Q d (l1 ++ l2).
+Proof.
+  intros H1 H2 n. rewrite firstn_app, execs_app.
+  destruct (Nat.le_gt_cases n (length l1)) as [Hn|Hn].
+  - replace (n - length l1)%nat with 0%nat by lia. cbn [firstn execs fold_left]. apply H1.
+  - rewrite (firstn_all2 l1) by lia. apply H2.
+Qed.
+
+Lemma ap_full (Q : db -> Prop) d l : all_prefixes Q d l -> Q (execs d l).
+Proof. intros H. specialize (H (length l)). rewrite firstn_all in H. exact H. Qed.
+
+Lemma ap_first (Q : db -> Prop) d l : all_prefixes Q d l -> Q d.
+Proof. intros H. exact (H 0%nat). Qed.
+
+Lemma ap_impl (Q Q' : db -> Prop) d l : (forall x, Q x -> Q' x) -> all_prefixes Q d l -> all_prefixes Q' d l.
+Proof. intros Hi H n. apply Hi. apply H. Qed.
+
+(* the statements of a micro prefix are a prefix of the statements *)
+Lemma stmts_firstn m : forall k, exists k', stmts_of (firstn k m) = firstn k' (stmts_of m).
+Proof.
+  induction m as [|x m IH]; intros k; [exists 0%nat; destruct k; reflexivity|].
+  destruct k as [|k]; [exists 0%nat; reflexivity|]. cbn [firstn]. destruct (IH k) as [k' Hk'].
+  destruct x as [s|r|]; cbn [stmts_of flat_map List.app] in *; fold (stmts_of (firstn k m)) (stmts_of m).
+  - exists (S k'). cbn [firstn]. rewrite Hk'. reflexivity.
+  - exists k'. exact Hk'.
+  - exists k'. exact Hk'.
+Qed.
+
+Lemma crash_at_prefix (Q : db -> Prop) le t o sc k :
+  all_prefixes Q (db_of t) (op_stmts le t o sc) -> Q (crash_at le k t o sc).
+Proof.
+  intros H. unfold crash_at. destruct (stmts_firstn (op_micro le t o sc) k) as [k' Hk']. rewrite Hk'. apply H.
+Qed.
+
+(* --- statements that cannot raise a balance --- *)
+Lemma ssum_filter_le (p q : app -> bool) l : ssum (filter p (filter q l)) <= ssum (filter p l).
+Proof.
+  induction l as [|a l IH]; [cbn; lia|]. cbn [filter]. destruct (q a); cbn [filter]; destruct (p a); rewrite ?ssum_cons; lia.
+Qed.
+
+Lemma harmless_le fuel : forall s d, harmless_fuel fuel s = true -> le_all d (exec_fuel fuel d s).
+Proof.
+  induction fuel as [|f IHf]; intros s d;
+  (destruct s as [u ui|u ui|u s|us|a|a|us|k|uu h c|l]; cbn [harmless_fuel exec_fuel]; try discriminate; intros Hh;
+   lazymatch goal with
+   | |- le_all _ (mk_db (filter _ (d_users _)) _ _) =>
+       intros v; rewrite !balance_alt; unfold davail, dheld; cbn [d_users d_apps];
+       rewrite (aget_filter_key (fun k => negb (memN k us)));
+       pose proof (ssum_filter_le (ofu v) (fun a => negb (memN (a_user a) us)) (d_apps d));
+       destruct (negb (memN v us)); destruct (aget (d_users d) v); lia
+   | |- le_all _ (mk_db (d_users _) (filter _ _) _) =>
+       intros v; rewrite !balance_alt; unfold davail, dheld; cbn [d_users d_apps];
+       pose proof (ssum_filter_le (ofu v) (fun a => negb (mem_uuid (app_uuid a) us)) (d_apps d)); lia
+   | |- le_all _ (match find_trk _ _ with _ => _ end) =>
+       destruct (find_trk (d_trks d) (trk_uuid k)); [apply le_all_refl|];
+       destruct (find_app (d_apps d) (trk_uuid k)); [|apply le_all_refl]; intros v; unfold balance; cbn [d_users d_apps]; lia
+   | |- le_all _ (mk_db _ _ (map _ _)) => intros v; unfold balance; cbn [d_users d_apps]; lia
+   | _ => idtac
+   end).
+  revert d. induction l as [|s l IHl]; intros d; cbn [fold_left]; [apply le_all_refl|].
+  cbn [forallb] in Hh. apply andb_true_iff in Hh. destruct Hh as [H1 H2].
+  eapply le_all_trans; [apply IHf; exact H1|]. apply IHl. exact H2.
+Qed.
+
+Definition hl (l : list micro) : Prop := Forall (fun s => harmless s = true) (stmts_of l).
+
+Lemma hl_nil : hl [].
+Proof. constructor. Qed.
+Lemma hl_app l1 l2 : hl l1 -> hl l2 -> hl (l1 ++ l2).
+Proof. unfold hl. intros. rewrite stmts_of_app. apply Forall_app. split; assumption. Qed.
+Lemma hl_stmt s : harmless s = true -> hl [MStmt s].
+Proof. intros H. repeat constructor. exact H. Qed.
+Lemma hl_rpc r : hl [MRpc r].
+Proof. constructor. Qed.
+Lemma hl_cons_stmt s l : harmless s = true -> hl l -> hl (MStmt s :: l).
+Proof. intros H Hl. unfold hl. cbn. constructor; assumption. Qed.
+Lemma hl_concat gs : Forall hl gs -> hl (concat gs).
+Proof. induction 1; cbn [concat]; [apply hl_nil|apply hl_app; assumption]. Qed.
+
+Lemma mono_harmless (Q : db -> Prop) l : (forall x y, Q x -> le_all x y -> Q y) ->
+  Forall (fun s => harmless s = true) l -> forall d, Q d -> all_prefixes Q d l.
+Proof.
+  intros HQ H. induction H as [|s l Hs Hl IH]; intros d Hd; [apply ap_nil; exact Hd|].
+  apply ap_cons; [exact Hd|]. apply IH. eapply HQ; [exact Hd|]. apply (harmless_le 2). exact Hs.
+Qed.
+
+Lemma hl_send sc t tx : hl (tr_send sc t tx).
+Proof. unfold tr_send. destruct (aget _ tx); [apply hl_nil|apply hl_rpc]. Qed.
+Lemma hl_add_tracker uuid d p s : hl (tr_add_tracker uuid d p s).
+Proof. unfold tr_add_tracker. destruct s; first [apply hl_stmt; reflexivity|apply hl_nil]. Qed.
+Lemma hl_handle_breach sc t uuid d p : hl (tr_handle_breach sc t uuid d p).
+Proof.
+  unfold tr_handle_breach. destruct (ti_get (r_index t) p) as [bh|].
+  - destruct (ti_get_height _ bh); [apply hl_add_tracker|apply hl_nil].
+  - apply hl_app; [apply hl_rpc|]. destruct (fst (in_mempool sc t p)); [apply hl_add_tracker|].
+    apply hl_app; [apply hl_send|apply hl_add_tracker].
+Qed.
+Lemma hl_delete_norefund t us : hl (tr_delete t us false).
+Proof. unfold tr_delete. destruct us as [|x [|y l]]; apply hl_stmt; reflexivity. Qed.
+Lemma hl_breach_uuid_loop sc d : forall us t inv, hl (tr_breach_uuid_loop sc d us t inv).
+Proof.
+  induction us as [|uuid us IH]; intros t inv; cbn [tr_breach_uuid_loop]; [apply hl_nil|].
+  destruct (find_app _ uuid) as [a|]; [|apply hl_nil]. destruct (decrypt _ d) as [p|]; [|apply IH].
+  apply hl_app; [apply hl_handle_breach|]. destruct (r_handle_breach sc t uuid d p); [apply IH|apply hl_nil].
+Qed.
+Lemma hl_breach_loop sc : forall ds t inv, Forall hl (tr_breach_loop sc ds t inv).
+Proof.
+  induction ds as [|d ds IH]; intros t inv; cbn [tr_breach_loop]; constructor; [apply hl_breach_uuid_loop|].
+  destruct (breach_uuid_loop _ _ _ _ _); [apply IH|constructor].
+Qed.
+Lemma hl_check_conf txids h : forall snap t, hl (tr_check_conf txids h snap t).
+Proof.
+  induction snap as [|k snap IH]; intros t; cbn [tr_check_conf]; [apply hl_nil|].
+  destruct (memN _ _); [|apply IH]. destruct (find_trk _ _); [|apply hl_nil]. apply hl_cons_stmt; [reflexivity|apply IH].
+Qed.
+Lemma hl_reorged sc h : forall us t, Forall hl (tr_reorged sc h us t).
+Proof.
+  induction us as [|uuid us IH]; intros t; cbn [tr_reorged]; [constructor|].
+  destruct (find_trk _ uuid) as [k|]; [|apply IH].
+  destruct (fst (send_transaction sc t (t_dispute k))).
+  - constructor; [apply hl_send|constructor].
+  - destruct (status_rejected _); constructor; try apply IH;
+      repeat (apply hl_app; try apply hl_send); apply hl_stmt; reflexivity.
+  - destruct (status_rejected _); constructor; try apply IH;
+      repeat (apply hl_app; try apply hl_send); apply hl_stmt; reflexivity.
+  - constructor; [apply hl_send|apply IH].
+Qed.
+Lemma hl_stale sc h : forall us t, hl (tr_stale sc h us t).
+Proof.
+  induction us as [|uuid us IH]; intros t; cbn [tr_stale]; [apply hl_nil|].
+  destruct (find_trk _ uuid) as [k|]; [|apply hl_nil]. apply hl_app; [apply hl_send|].
+  destruct (fst (send_transaction sc t (t_penalty k))); try (apply hl_cons_stmt; [reflexivity|]); apply IH.
+Qed.
+Lemma hl_gk_block t h : hl (tr_gk_block t h).
+Proof. unfold tr_gk_block. destruct (outdated_users _ _ _) as [[|o os]|]; first [apply hl_stmt; reflexivity|apply hl_nil]. Qed.
+Lemma hl_w_block sc t b h : hl (flat_segs (tr_w_block sc t b h)).
+Proof.
+  unfold tr_w_block. destruct (ti_update _ b) as [c|]; [|apply hl_nil].
+  rewrite flat_segs_cons. apply hl_app; [apply hl_concat; apply hl_breach_loop|].
+  destruct (breach_loop _ _ _ _) as [invalid t2|]; [|apply hl_nil].
+  cbn [flat_segs flat_map flat_seg]. rewrite app_nil_r. destruct invalid; [apply hl_nil|apply hl_delete_norefund].
+Qed.
+
+(* --- the refund transaction: slots move from rows to the balance, nothing is created --- *)
+Lemma refund_txn_le t completed t3 :
+  Inv t -> NoDup completed ->
+  (match completed with [] => Ok tt t | _ => gk_delete_appointments t completed true end) = Ok tt t3 ->
+  le_all (db_of t) (db_of t3).
+Proof.
+  intros HI Hnd H. destruct (delete_refund_spec t completed t3 HI Hnd H) as [Ha Hv].
+  intros v. rewrite !balance_bal. unfold bal, held_t. rewrite Ha. destruct (Hv v) as [_ Hav]. rewrite Hav.
+  rewrite (ssum_split (fun a => mem_uuid (app_uuid a) completed) (filter (ofu v) (db_apps t))).
+  rewrite !filter_filter. unfold del. rewrite filter_filter.
+  assert (E : filter (fun a => negb (mem_uuid (app_uuid a) completed) && ofu v a) (db_apps t) =
+              filter (fun a => ofu v a && negb (mem_uuid (app_uuid a) completed)) (db_apps t)).
+  { apply filter_ext_in'. intros a _. apply andb_comm. }
+  rewrite E. lia.
+Qed.
+
+(* --- block connection: no crash prefix raises any balance --- *)
+Lemma hl_r_tail sc h t3 :
+  hl (flat_segs
+    (Par (match reorged t3 with [] => [] | x :: l => tr_reorged sc h (x :: l) (set_reorged t3 []) end) ::
+     match (match reorged t3 with [] => Ok [] t3 | x :: l => reorged_loop sc h (x :: l) (set_reorged t3 []) [] end) with
+     | Abort _ _ => []
+     | Ok rej1 t4 =>
+         match u32_sub h (Z.to_N Consts.CONFIRMATIONS_BEFORE_RETRY) with
+         | None => []
+         | Some lim =>
+             Seq (tr_stale sc h (map trk_uuid (filter (fun k => negb (t_conf k) && N.leb (t_height k) lim) (db_trks t4))) t4) ::
+             match stale_loop sc h (map trk_uuid (filter (fun k => negb (t_conf k) && N.leb (t_height k) lim) (db_trks t4))) t4 [] with
+             | Abort _ _ => []
+             | Ok rej2 t5 => [Seq (match rej1 ++ rej2 with [] => [] | x :: l => tr_delete t5 (x :: l) false end)]
+             end
+         end
+     end)).
+Proof.
+  rewrite flat_segs_cons. apply hl_app.
+  { cbn [flat_seg]. apply hl_concat. destruct (reorged t3); [constructor|apply hl_reorged]. }
+  destruct (match reorged t3 with [] => Ok [] t3 | _ => _ end) as [rej1 t4|]; [|apply hl_nil].
+  destruct (u32_sub _ _) as [lim|]; [|apply hl_nil].
+  rewrite flat_segs_cons. apply hl_app; [apply hl_stale|].
+  destruct (stale_loop _ _ _ _ _) as [rej2 t5|]; [|apply hl_nil].
+  cbn [flat_segs flat_map flat_seg]. rewrite app_nil_r. destruct (rej1 ++ rej2); [apply hl_nil|apply hl_delete_norefund].
+Qed.
+
+Lemma ap_r_block d0 le sc t b h t' :
+  Inv t -> le_all d0 (db_of t) -> r_block_connected le sc t b h = Ok tt t' ->
+  all_prefixes (le_all d0) (db_of t) (stmts_of (flat_segs (tr_r_block le sc t b h))).
+Proof.
+  intros HI H0. unfold r_block_connected, tr_r_block.
+  destruct (ti_update (r_index (set_car_height t h)) b) as [idx|]; [|discriminate].
+  set (t1 := set_r_index (set_car_height t h) idx).
+  assert (HI1 : Inv t1) by (eapply inv_frame; [|exact HI]; repeat split).
+  rewrite flat_segs_cons, stmts_of_app. cbn [flat_seg].
+  pose proof (J_check_conf le (keys_of (ib_data b)) h (db_trks t1) t1 []) as H1.
+  pose proof (check_conf_loop_pres Inv inv_wr le (keys_of (ib_data b)) h (db_trks t1) t1 [] HI1) as HI2.
+  pose proof (check_conf_spec le (keys_of (ib_data b)) h (db_trks t1) t1 []) as Hspec.
+  assert (Hpre : all_prefixes (le_all d0) (db_of t) (stmts_of (tr_check_conf (keys_of (ib_data b)) h (db_trks t1) t1))).
+  { apply mono_harmless; [intros x y; apply le_all_trans|apply hl_check_conf|exact H0]. }
+  destruct (check_conf_loop le (keys_of (ib_data b)) h (db_trks t1) t1 []) as [completed t2|s t2]; cbn [bind]; [|discriminate].
+  destruct H1 as [D1 _]. cbn [pres] in HI2.
+  destruct (Hspec completed t2 eq_refl) as [_ [added [Hc [_ [_ Hnd]]]]]. cbn [List.app] in Hc. subst added.
+  specialize (Hnd (inv_trks_nodup t1 HI1)).
+  assert (H2 : le_all d0 (db_of t2)).
+  { rewrite D1. apply (ap_full _ _ _ Hpre). }
+  intros Hr. apply ap_app; [exact Hpre|]. change (db_of t) with (db_of t1). rewrite <- D1.
+  rewrite flat_segs_cons, stmts_of_app. cbn [flat_seg].
+  pose proof (J_delete_opt t2 completed true) as H3.
+  pose proof (refund_txn_le t2 completed) as Hle.
+  destruct (match completed with [] => Ok tt t2 | _ => gk_delete_appointments t2 completed true end) as [[] t3|s t3];
+    cbn [bind] in Hr; [|discriminate].
+  destruct H3 as [D3 _]. specialize (Hle t3 HI2 Hnd eq_refl).
+  assert (H3 : le_all d0 (db_of t3)) by (eapply le_all_trans; [exact H2|exact Hle]).
+  apply ap_app.
+  - destruct completed as [|c0 cs]; [apply ap_nil; exact H2|].
+    unfold tr_delete. cbn [stmts_of flat_map List.app]. apply ap_cons; [exact H2|]. apply ap_nil.
+    unfold tr_delete in D3. cbn [stmts_of flat_map List.app execs fold_left] in D3. rewrite <- D3. exact H3.
+  - rewrite <- D3. apply mono_harmless; [intros x y; apply le_all_trans|apply hl_r_tail|exact H3].
+Qed.
+
+Lemma ap_listener d0 le sc hash txs h w t t' :
+  Inv t -> le_all d0 (db_of t) -> listener_connected le sc hash txs h w t = Ok tt t' ->
+  all_prefixes (le_all d0) (db_of t) (stmts_of (flat_segs (tr_listener_connected le sc hash txs h w t))).
+Proof.
+  intros HI H0. unfold listener_connected, tr_listener_connected. destruct (Z.eqb w 0).
+  - intros _. apply mono_harmless; [intros x y; apply le_all_trans| |exact H0].
+    cbn [flat_segs flat_map flat_seg]. rewrite app_nil_r. apply hl_gk_block.
+  - destruct (Z.eqb w 1).
+    + intros _. apply mono_harmless; [intros x y; apply le_all_trans|apply hl_w_block|exact H0].
+    + apply ap_r_block; assumption.
+Qed.
+
+Lemma ap_listeners d0 le sc hash txs h order : forall t t',
+  Inv t -> le_all d0 (db_of t) ->
+  run_listeners (listener_connected le sc hash txs h) order t = Ok tt t' ->
+  all_prefixes (le_all d0) (db_of t)
+    (stmts_of (flat_segs (tr_listeners (listener_connected le sc hash txs h) (tr_listener_connected le sc hash txs h) order t))).
+Proof.
+  induction order as [|w order IH]; intros t t' HI H0; cbn [run_listeners tr_listeners]; [intros _; apply ap_nil; exact H0|].
+  rewrite flat_segs_app, stmts_of_app.
+  pose proof (J_listener_connected le sc hash txs h w t) as HJ.
+  pose proof (listener_connected_pres Inv (sa_block Inv inv_stable) le sc hash txs h w t HI) as HI1.
+  pose proof (ap_listener d0 le sc hash txs h w t) as Hap.
+  destruct (listener_connected le sc hash txs h w t) as [[] t1|s t1]; cbn [bind]; [|discriminate].
+  destruct HJ as [D1 _]. cbn [pres] in HI1. specialize (Hap t1 HI H0 eq_refl).
+  intros Hr. apply ap_app; [exact Hap|]. rewrite <- D1. apply (IH t1 t' HI1); [|exact Hr].
+  rewrite D1. apply (ap_full _ _ _ Hap).
+Qed.
+
+Theorem connect_never_grants le t hash txs sc :
+  Inv t -> not_abort (snd (step le t (OConnect hash txs) sc)) ->
+  all_prefixes (le_all (db_of t)) (db_of t) (op_stmts le t (OConnect hash txs) sc).
+Proof.
+  intros HI. unfold op_stmts, op_micro, op_segs. cbn [step].
+  assert (HI0 : Inv (set_rpc_log t [])) by (eapply inv_frame; [|exact HI]; repeat split).
+  pose proof (ap_listeners (db_of t) le sc hash txs (gk_height (set_rpc_log t []) + 1) Consts.LISTENER_ORDER (set_rpc_log t [])) as H.
+  destruct (run_listeners (listener_connected le sc hash txs (gk_height (set_rpc_log t []) + 1)) Consts.LISTENER_ORDER (set_rpc_log t []))
+    as [[] t1|s t1]; cbn [wrap snd]; [|intros []].
+  intros _. apply (H t1 HI0 (le_all_refl _) eq_refl).
+Qed.
